@@ -625,6 +625,19 @@ class List(list, base.Symbolic, pg_typing.CustomTyping):
     """Returns a repeated Lit of self."""
     return self.__mul__(n)
 
+  def __iadd__(self, other: Iterable[Any]) -> 'List':
+    """In-place concatenation, with the same semantics as `extend`."""
+    self.extend(other)
+    return self
+
+  def __imul__(self, n: int) -> 'List':
+    """In-place repetition."""
+    if n <= 0:
+      self.clear()
+    elif n > 1:
+      self.extend(list(self.sym_values()) * (n - 1))
+    return self
+
   def copy(self) -> 'List':
     """Shallow current list."""
     return List(super().copy(), value_spec=self._value_spec)
